@@ -189,12 +189,16 @@ func opArgs(o int, types []int) []Val {
 
 // runCase binds the described chain with the real nject and performs the ops; returns the record lines.
 func runCase(c *CaseDesc) []string {
+	return runCaseWith(c, func(r *caseRun) *nject.Collection { return r.buildCollection("c") })
+}
+
+func runCaseWith(c *CaseDesc, build func(*caseRun) *nject.Collection) []string {
 	r := &caseRun{c: c}
 	for _, l := range c.HeaderLines() {
 		r.lines = append(r.lines, l)
 	}
 	var coll *nject.Collection
-	if s := guarded(5*time.Second, func() { coll = r.buildCollection("c") }); s != "" {
+	if s := guarded(5*time.Second, func() { coll = build(r) }); s != "" {
 		r.logf("bind %s (construct)", s)
 		r.logf("end")
 		return r.lines
